@@ -72,11 +72,21 @@ theorem sqlite_bareSafe : BareSafe sqliteNeedsQuote := by
 DELETE with `literal_column("'%s'" % version)`) are read back as themselves, for every version
 string without a quote character (they are pasted unescaped). -/
 theorem reads_back_vt (q : Str → Bool) (hq : BareSafe q) (s : Stmt) (hv : isVt s = true) :
-    parseStmt q (renderStmt q s) = s := by
-  have hl := lex_stmtP q hq s
-  cases s <;> simp [isVt] at hv <;> simp only [renderStmt] at * <;>
-    simp only [parseStmt, hl] <;>
-    simp [parseToks, vtCandidates, stmtP, toks, w, p, sp1, spCol, spNl, vtName, vtCol, strAt]
+    parseStmt q (renderStmt q s) = s := parse_vt q hq s hv
+
+/-- **C12.reads_back.** Every statement of the language — CREATE TABLE with any columns, DROP
+TABLE, ALTER TABLE … ADD COLUMN, CREATE INDEX, DROP INDEX, INSERT … VALUES with any values
+(NULL, integers, arbitrary strings), and the version-table statements — is read back from its
+rendered text as exactly itself, for every name (quoted or bare, any characters) and every
+quoting policy that is safe for bare names.  `stmtWf` only asks for non-empty column / value
+lists and user tables not named `alembic_version`. -/
+theorem reads_back (q : Str → Bool) (hq : BareSafe q) (s : Stmt) (h : stmtWf s = true) :
+    parseStmt q (renderStmt q s) = s := parse_render q hq s h
+
+/-- non-vacuity / the reader rejects what is not a statement of the language -/
+example : stmtWf (.insert ['t'] [['a'], ['b']] [.null, .str ['x', '\'', ';']]) = true := by decide
+example : parseStmt (fun _ => true) ['D', 'R', 'O', 'P', ' ', 'x'] = .other ['D', 'R', 'O', 'P', ' ', 'x'] := by
+  decide +kernel
 
 /-! ## same effect -/
 
@@ -172,10 +182,10 @@ theorem run_agree (q : Str → Bool) (steps : List Step) : ∀ (heads : List Str
 
 theorem vtOk (q : Str → Bool) (hq : BareSafe q) : VtOk q := by
   refine ⟨?_, ?_⟩
-  · simp only [stmtOk, readsBack, reads_back_vt q hq .vtCreate rfl, beq_self_eq_true, Bool.true_and]
+  · simp only [stmtOk, stmtWf, Bool.true_and]
     have : renderStmt q .vtCreate = renderStmt (fun _ => true) .vtCreate := rfl
     rw [this]; decide
-  · simp only [stmtOk, readsBack, reads_back_vt q hq .vtDrop rfl, beq_self_eq_true, Bool.true_and]
+  · simp only [stmtOk, stmtWf, Bool.true_and]
     have : renderStmt q .vtDrop = renderStmt (fun _ => true) .vtDrop := rfl
     rw [this]; decide
 
